@@ -41,12 +41,12 @@ func slot(x ref.DT) int {
 func floorMin(x ref.DT) int64 { return int64(ref.JDN(x.Y, x.M, x.D))*1440 + int64(x.H*60+x.Mi) }
 
 type expect struct {
-	forward          bool
-	y, m, d, h       int
-	start            ref.DT
-	prev, next       ref.DT
-	monthP, hourP    int
-	nearJieSec       int64
+	forward       bool
+	y, m, d, h    int
+	start         ref.DT
+	prev, next    ref.DT
+	monthP, hourP int
+	nearJieSec    int64
 }
 
 func model(c birthCase) (expect, error) {
@@ -117,7 +117,7 @@ func model(c birthCase) (expect, error) {
 
 var fortune = ev.Register(&ev.P[birthCase]{
 	Name: "fortune_chain",
-	Rule: "generated birth moments (emphasis: Jie instants ±1 s/±1 min/±1 h, the Lichun day before the instant, 23:xx, Feb 28/29, early and late years) x gender x school; oracle recomputed from R-civil/R-gz and the term instants: direction = (Lichun-instant year stem is yang) == male; start offset from the distance to the next/previous Jie (school 1: 12·days + slot difference, slot(23:xx)=11, ten days per slot; school 2: whole-minute difference, 4320/360/12/×2) within months 0..11, days 0..29, hours 0..23; GetStartSolar = birth + y years + m months + d days + h hours with day clamping; period 0 = [birth year, start year − 1] with ages from 1, periods i>=1 are consecutive ten-year spans from the start year with age = year − birth year + 1; period pillar i = month pillar ± i; every annual entry carries (year − 4) mod 60 of its own year and age; monthly entries follow five-tigers from that year's stem; minor fortunes = hour pillar ± age; xun getters consistent; non-trivial: birth within 1 h of a Jie, at 23:xx, or start offset 0 or > 9 years",
+	Rule: "generated birth moments (emphasis: Jie instants ±1 s/±1 min/±1 h, the Lichun day before the instant, 23:xx, Feb 28/29, early and late years) x gender x school; oracle recomputed from R-civil/R-gz and the term instants: direction = (Lichun-instant year stem is yang) == male; start offset from the distance to the next/previous Jie (school 1: 12·days + slot difference, slot(23:xx)=11, ten days per slot; school 2: whole-minute difference, 4320/360/12/×2) within months 0..11, days 0..29, hours 0..23; GetStartSolar = birth + y years + m months + d days + h hours with day clamping; period 0 = [birth year, start year − 1] with ages from 1, periods i>=1 are consecutive ten-year spans from the start year with age = year − birth year + 1; period pillar i = month pillar ± i; every annual entry carries (year − 4) mod 60 of its own year and age; monthly entries follow five-tigers from that year's stem; minor fortunes = hour pillar ± age; xun getters consistent; the counted variants GetDaYunBy(n) / GetLiuNianBy(m) / GetXiaoYunBy(m) for rotating n, m continue or cut the same chain (the pre-fortune span ignores the count); non-trivial: birth within 1 h of a Jie, at 23:xx, or start offset 0 or > 9 years",
 	Check: func(c birthCase) error {
 		t := c.T
 		e, err := model(c)
@@ -220,6 +220,57 @@ var fortune = ev.Register(&ev.P[birthCase]{
 				}
 				if x.GetIndex() != k || x.GetYear() != yr || x.GetAge() != age || x.GetGanZhi() != ref.Pair(wx) {
 					return fmt.Errorf("%s: minor fortune period %d entry %d = year %d age %d %s, model says %d / %d / %s (hour pillar %s)", w, i, k, x.GetYear(), x.GetAge(), x.GetGanZhi(), yr, age, ref.Pair(wx), ref.Pair(e.hourP))
+				}
+			}
+		}
+		// the counted variants: any count continues (or cuts) the same chain; the pre-fortune span ignores the count
+		n := 1 + (t.D+t.H+t.Mi)%14
+		by := yun.GetDaYunBy(n)
+		if len(by) != n {
+			return fmt.Errorf("%s: GetDaYunBy(%d) has %d periods", w, n, len(by))
+		}
+		for i, d := range by {
+			wantStart, wantEnd, wantGZ := t.Y, e.start.Y-1, ""
+			if i >= 1 {
+				wantStart = e.start.Y + 10*(i-1)
+				wantEnd = wantStart + 9
+				if e.forward {
+					wantGZ = ref.Pair(e.monthP + i)
+				} else {
+					wantGZ = ref.Pair(e.monthP - i)
+				}
+			}
+			if d.GetIndex() != i || d.GetStartYear() != wantStart || d.GetEndYear() != wantEnd || d.GetGanZhi() != wantGZ || d.GetStartAge() != wantStart-t.Y+1 {
+				return fmt.Errorf("%s: GetDaYunBy(%d)[%d] = %d..%d %q age %d, the chain gives %d..%d %q age %d", w, n, i, d.GetStartYear(), d.GetEndYear(), d.GetGanZhi(), d.GetStartAge(), wantStart, wantEnd, wantGZ, wantStart-t.Y+1)
+			}
+			if i != 0 && i != n-1 {
+				continue
+			}
+			m := 1 + (t.D+t.S+i)%13
+			lns, xys := d.GetLiuNianBy(m), d.GetXiaoYunBy(m)
+			wantN := m
+			if i == 0 {
+				wantN = wantEnd - wantStart + 1
+			}
+			if len(lns) != wantN || len(xys) != wantN {
+				return fmt.Errorf("%s: period %d GetLiuNianBy(%d)/GetXiaoYunBy(%d) have %d/%d entries, want %d", w, i, m, m, len(lns), len(xys), wantN)
+			}
+			ten := d.GetXiaoYun()
+			for k := range lns {
+				if lns[k].GetIndex() != k || lns[k].GetYear() != wantStart+k || lns[k].GetAge() != wantStart+k-t.Y+1 || lns[k].GetGanZhi() != ref.Pair(ref.YearPillar(wantStart+k)) {
+					return fmt.Errorf("%s: period %d GetLiuNianBy(%d)[%d] = year %d age %d %s, the chain gives %d / %d / %s", w, i, m, k, lns[k].GetYear(), lns[k].GetAge(), lns[k].GetGanZhi(), wantStart+k, wantStart+k-t.Y+1, ref.Pair(ref.YearPillar(wantStart+k)))
+				}
+				if xys[k].GetIndex() != k || xys[k].GetYear() != wantStart+k || xys[k].GetAge() != lns[k].GetAge() || (k < len(ten) && xys[k].GetGanZhi() != ten[k].GetGanZhi()) {
+					return fmt.Errorf("%s: period %d GetXiaoYunBy(%d)[%d] = year %d age %d %s, the default list's entry is %d / %d", w, i, m, k, xys[k].GetYear(), xys[k].GetAge(), xys[k].GetGanZhi(), wantStart+k, lns[k].GetAge())
+				}
+				if k > 0 {
+					step := 1
+					if !e.forward {
+						step = -1
+					}
+					if ref.PairIndexOf(xys[k].GetGanZhi()) != ref.Mod(ref.PairIndexOf(xys[k-1].GetGanZhi())+step, 60) {
+						return fmt.Errorf("%s: period %d GetXiaoYunBy(%d): entry %d %s does not follow entry %d %s (forward=%v)", w, i, m, k, xys[k].GetGanZhi(), k-1, xys[k-1].GetGanZhi(), e.forward)
+					}
 				}
 			}
 		}
